@@ -102,6 +102,11 @@ class QueryPlanner:
             version = name_parts[-1]
             name_parts = name_parts[:-1]
 
+        if len(name_parts) > 2 and name_parts[0].lower() in self.integrations and name_parts[0].lower() not in self.projects:
+            # integration.schema.table: the first part decides where the name resolves to - a table of that data integration,
+            # also when its schema and table are named like a project and one of its models
+            return None
+
         name = name_parts[-1]
 
         namespace = None
